@@ -2,6 +2,7 @@ package exif2
 
 import (
 	"fmt"
+	"math"
 
 	"github.com/evanoberholster/imagemeta/exif2/ifds"
 	"github.com/evanoberholster/imagemeta/exif2/ifds/exififd"
@@ -62,7 +63,13 @@ func (t Tag) IsEmbedded() bool {
 
 // Size returns the size of the Tag's value
 func (t Tag) Size() uint32 {
-	return uint32(t.Type.Size()) * uint32(t.UnitCount)
+	// The product is computed in 64 bits: a count such as 0x40000002 of a 4-byte type must not
+	// wrap around to a small size (it saturates instead and is then rejected as too long).
+	size := uint64(t.Type.Size()) * uint64(t.UnitCount)
+	if size > math.MaxUint32 {
+		return math.MaxUint32
+	}
+	return uint32(size)
 }
 
 // IsIfd checks if the Tag's value is an IFD
